@@ -515,6 +515,9 @@ def read_hotswan(fileglob, dirorder=True):
                 dset.efth.loc[slc] = dsets[-1].efth.loc[slc]
             else:
                 dsets[-1].efth.loc[slc] = dset.efth.loc[slc]
+        # Overlapping rows or columns now hold the same values in both parts, keep them once
+        if overlap[concat_dim]:
+            dsets[-1] = dsets[-1].drop_sel({concat_dim: sorted(overlap[concat_dim])})
         dsets.append(dset)
     dset = xr.combine_by_coords(dsets)
     set_spec_attributes(dset)
